@@ -19,6 +19,7 @@ import (
 type c11Case struct {
 	S      StreamM
 	Pieces []int // sizes of the pieces the producer delivers, then it blocks
+	HTML   bool  `json:",omitempty"` // pp only: -html FILE (dump renderings go to the file, text still streams to stdout)
 }
 
 // layout is the ground truth geometry of a stream.
@@ -183,6 +184,48 @@ func genPieces(t *rapid.T, n int) []int {
 	return ps
 }
 
+// alignPieces moves some piece boundaries onto the interesting offsets of the stream: the end
+// of each dump (the closing separator of a race report is then the last byte of a delivery)
+// and the end of the line that terminates it.
+func alignPieces(t *rapid.T, s *StreamM, ps []int) []int {
+	var marks []int
+	off := len(s.Pre)
+	marks = append(marks, off)
+	for i := range s.Items {
+		off += len(s.Items[i].dumpBytes())
+		marks = append(marks, off)
+		if ls := splitLines(s.Items[i].After); len(ls) > 0 {
+			marks = append(marks, off+len(ls[0]))
+		}
+		off += len(s.Items[i].After)
+	}
+	cuts := map[int]bool{}
+	pos := 0
+	for _, p := range ps {
+		pos += p
+		cuts[pos] = true
+	}
+	for _, m := range marks {
+		if rapid.Bool().Draw(t, "alignHere") {
+			cuts[m] = true
+		}
+	}
+	var sorted []int
+	for c := range cuts {
+		if c > 0 && c < off {
+			sorted = append(sorted, c)
+		}
+	}
+	sort.Ints(sorted)
+	var out []int
+	prev := 0
+	for _, c := range sorted {
+		out = append(out, c-prev)
+		prev = c
+	}
+	return out
+}
+
 func piecesObs(x []byte, ps []int) (inside, afterNL bool) {
 	pos := 0
 	for _, p := range ps {
@@ -205,7 +248,7 @@ var c11Lib = Check[c11Case]{
 		o := streamOptsDefault()
 		o.MaxItems = 2
 		s := genStream(t, o)
-		return c11Case{S: s, Pieces: genPieces(t, len(s.Bytes()))}
+		return c11Case{S: s, Pieces: alignPieces(t, &s, genPieces(t, len(s.Bytes())))}
 	},
 	Oracle: c11Oracle,
 	Obs: func(c c11Case) Obs {
@@ -254,6 +297,15 @@ func readExactly(r io.Reader, nbytes int, d time.Duration) ([]byte, error) {
 
 func c11PPOnce(c c11Case, limit time.Duration) error {
 	args := []string{"-no-color", "-rebase=false"}
+	if c.HTML {
+		hf, err := os.CreateTemp(os.Getenv("VERIF_WORK"), "live*.html")
+		if err != nil {
+			return fmt.Errorf("HARNESS: %v", err)
+		}
+		hf.Close()
+		defer os.Remove(hf.Name())
+		args = append(args, "-html", hf.Name())
+	}
 	l := layoutOf(&c.S)
 	// Expected output and the map from "events" to output offsets.
 	var out bytes.Buffer
@@ -390,7 +442,7 @@ var c11PP = Check[c11Case]{
 		o.Junk.Long = false
 		o.Dump.LongLines = false
 		s := genStream(t, o)
-		return c11Case{S: s, Pieces: genPieces(t, len(s.Bytes()))}
+		return c11Case{S: s, Pieces: alignPieces(t, &s, genPieces(t, len(s.Bytes()))), HTML: oneIn(t, 4, "html")}
 	},
 	Oracle: c11PPOracle,
 	Obs: func(c c11Case) Obs {
